@@ -336,7 +336,7 @@ def shard(tier, i, n, seed):
         idx += 1
         if (idx + seed) % n != i:
             continue
-        guarded(R, lambda: one_scenario(sc, idx, tier, seed, R, maxlen_m1), sc.record(), {'kind:' + sc.kind, 'dec:' + sc.decname}, idx)
+        guarded(R, lambda: one_scenario(sc, idx, tier, seed, R, maxlen_m1), sc.record(), {'kind:' + sc.kind, 'dec:' + sc.decname}, idx, cpu_limit=180)
     return R
 
 
